@@ -441,3 +441,21 @@ func SortedKeys(m Obj) []string {
 	sort.Strings(ks)
 	return ks
 }
+
+// SelectorInfo renders a metav1.LabelSelector-shaped JSON tree for the trace.
+func SelectorInfo(sel Obj) Obj {
+	ml := Obj{}
+	for k, v := range StrMapOf(sel["matchLabels"]) {
+		ml[k] = v
+	}
+	me := []interface{}{}
+	for _, e := range AsList(sel["matchExpressions"]) {
+		em := AsMap(e)
+		vals := []interface{}{}
+		for _, x := range AsList(em["values"]) {
+			vals = append(vals, AsStr(x))
+		}
+		me = append(me, Obj{"key": AsStr(em["key"]), "op": AsStr(em["operator"]), "values": vals})
+	}
+	return Obj{"ml": ml, "me": me}
+}
